@@ -835,7 +835,10 @@ def check_c07(rep):
                      '(4) indent_regexp, the verbose-mode indentation, never panics (no arithmetic overflow) and only prepends '
                      'two-space indents to the non-empty lines, for every text of <= 3 lines of <= %d arbitrary code points.'
                      % (nmax, 2 if rep.tier == 'quick' else 3, 2 if rep.tier == 'quick' else 3))
-    rep.outside = ['totality of build() on arbitrary lists and the 2^15 settings lattice', 'validity of everything the printer emits',
+    rep.statement += ('  (5) END TO END: for 2 test cases of one character each (0-9 a-z A-Z blank underscore) and each of %s combinations of the 13 settings, build() '
+                      'from MIR returns without panicking and its text is in the syntax subset the pattern parser reads, with the requested flag group, anchors and '
+                      'group kinds (Q01s, the same obligation as in C01 on another input shape).' % ('25' if rep.tier == 'quick' else '260'))
+    rep.outside = ['totality of build() on longer lists / longer test cases; validity of the printed text beyond the syntax subset grex emits on these inputs',
                    'units longer than %d code points' % nmax,
                    'cluster shapes other than base + Extend* when the unconstrained query is sat (realisability filter)']
     rep.assumptions += ['GeneralCategory::of(c).is_mark()/is_other() are table stubs dumped from unic-ucd-category by running it',
@@ -914,6 +917,9 @@ def check_c07(rep):
                 '+'.join(u(x) for x in seq), json.dumps(''.join(map(chr, text))), r[0], json.dumps(''.join(map(chr, r[1].get('ok') or []))) if 'ok' in r[1] else r[1])
             classify(rep, known, o.qid, key, what, {'inputs': {'e': seq, 'probe': probe, 'escape': esc, 'surrogates': surr}, 'observed': {'text': text, 'regex': r[0]}},
                      not ok and not (surr and esc and any(x >= 0x10000 for x in seq)))
+    # the whole of build() under combinations of settings: no panic, the printed text is in the syntax the regex crate accepts (same obligations as C01,
+    # on another input shape so that the two checks do not merely repeat each other)
+    run_settings_obligations(rep, env, known, [(1, 1)] if rep.tier == 'quick' else [(1, 1), (2,)], setting_combinations(rep.tier))
     # verbose-mode indentation: total (no arithmetic panic) and content-preserving
     io = ob_add(rep, env.run('q07i', 3, 2) if rep.tier == 'quick' else env.run('q07i', 3, 3))
     if io.result == 'sat':
@@ -1585,14 +1591,54 @@ def check_c13(rep):
                      'thresholds, every quantified unit that GraphemeCluster::convert_repetitions produces, at any nesting depth, has a '
                      'count strictly greater than minimum_repetitions and spans at least minimum_substring_length graphemes; counts are exact.'
                      % (5 if rep.tier == 'quick' else 7))
-    rep.outside = ['"without repetition conversion the pattern contains no quantifier" (the gate is one if in RegExp::grapheme_clusters; the printed '
-                   'pattern is fmt code)', 'ranges {m,n} created by trie-edge merging in Dfa::find_next_state and their printing',
-                   'graphemes of more than one code point; clusters longer than the bound']
+    rep.statement += ('  END TO END on the printed pattern (Q01s, build() from MIR): without conversion of repetitions no {n} / {m,n} quantifier is printed (2 test cases of 2 '
+                      'characters; and every setting combination of C01/C07); with it, for one test case of 4 (5) characters from 0-9 a-z blank underscore and thresholds '
+                      '(1,1), (2,1), (1,2) ((2,2)), every quantifier in the printed pattern -- also ranges created by trie-edge merging -- has an upper count above '
+                      'minimum_repetitions and a unit of at least minimum_substring_length characters.')
+    rep.outside = ['graphemes of more than one code point; clusters longer than the bound; end to end: thresholds above 2, more or longer test cases']
     rep.assumptions += ['HashMap modelled as an insertion-ordered association list; itertools adaptors by their documented behaviour (see C05)']
-    check_cluster(rep, 'thresholds')
+    env = check_cluster(rep, 'thresholds')
+    # end to end on the printed pattern: no quantifier without the option; with it every quantifier respects both thresholds
+    known, _ = load_known()
+    R_ = ('repetitions',)
+    specs = [((2, 2), (), (1, 1)), ((4,), R_, (1, 1)), ((4,), R_, (2, 1)), ((4,), R_, (1, 2)), ((2, 1), R_, (1, 1))]
+    if rep.tier == 'thorough':
+        specs += [((5,), R_, (1, 1)), ((5,), R_, (2, 1)), ((5,), R_, (1, 2)), ((5,), R_, (2, 2)), ((3, 2), R_, (1, 1)), ((4,), R_ + ('verbose',), (1, 1)), ((4,), R_ + ('capture',), (1, 2)),
+                  ((2, 2), ('verbose', 'ignore_case'), (1, 1)), ((3,), ('digits',), (1, 1))]
+    env.prefetch([('q01s', sp_, {}) for sp_ in specs])
+    for lens, st_, th in specs:
+        o = ob_add(rep, env.run('q01s', lens, st_, th))
+        if o.result != 'sat':
+            continue
+        for m in o.verdict.models:
+            cases = [[m['s%d_%d' % (i, j)] for j in range(n)] for i, n in enumerate(lens)]
+            bad, what, obs = replay_thresholds(env, cases, st_, th)
+            key = 'cases=%s,%s,thresholds=%d/%d' % (canonical_words(cases), ','.join(st_) or 'default', th[0], th[1])
+            classify(rep, known, 'Q01s', key, what, {'inputs': {'threshold_cases': cases, 'settings_list': list(st_), 'thresholds': list(th)}, 'observed': obs}, bad)
+
+
+def replay_thresholds(env, cases, settings, th):
+    nat = {NATIVE_SETTING.get(k, k): True for k in settings}
+    nat.update({'min_repetitions': th[0], 'min_substring_length': th[1]})
+    got = env.eval([{'op': 'build', 'cases': cases, 'settings': nat}])
+    pat = ''.join(map(chr, got[0].get('ok') or []))
+    viol = []
+    for mm in re.finditer(r'(\((?:\?:)?(?:[^()]|\\.)*\)|\\.|[^\\])\{(\d+)(?:,(\d+))?\}', pat):
+        unit, cnt = mm.group(1), int(mm.group(3) or mm.group(2))
+        ulen = len(re.findall(r'\\.|[^\\()?:\s]', unit)) if unit.startswith('(') else 1
+        if 'repetitions' not in settings or not (cnt > th[0] and ulen >= th[1]):
+            viol.append(mm.group(0))
+    bad, what, obs = replay_settings(env, cases, settings) if tuple(th) == (1, 1) else (False, '', {})
+    what2 = 'build(%s, %s, thresholds %d/%d) = %s' % ([''.join(map(chr, c)) for c in cases], ','.join(settings) or 'default', th[0], th[1], json.dumps(pat))
+    if viol:
+        what2 += ' has quantifier(s) %s %s' % (viol, 'although conversion of repetitions is off' if 'repetitions' not in settings else 'below the thresholds')
+    return bool(viol) or bad or 'panic' in got[0], what2 + ('; ' + what if bad else ''), {'pattern': pat}
 
 
 def replay_c05(env, rec):
+    if 'threshold_cases' in rec['inputs']:
+        bad, what, _ = replay_thresholds(env, rec['inputs']['threshold_cases'], tuple(rec['inputs']['settings_list']), tuple(rec['inputs']['thresholds']))
+        return bad, what
     if rec['inputs'].get('edge_flags'):
         bad, what, _ = replay_edge_flags(env)
         return bad, what
@@ -2247,19 +2293,105 @@ def check_c01(rep):
     rep.statement = ('bounded, up to the AST: for the same family of inputs as C02, with default settings and with conversion of repetitions, the '
                      'language of the expression RegExp::from returns CONTAINS every test case (soundness). The empty test case is lost (known '
                      'finding F7). Code-point-level sub-obligations of soundness are decided under C03/C09 (class tokens contain the character), '
-                     'C04 (case conversion), C07 (escaping), C11 (escape text).')
-    rep.outside = ['the printed pattern and its compilation by the regex crate (C06/C07 kernels cover literal patterns and escaping)',
-                   'code points other than ASCII letters; more or longer test cases than the bound', 'all other settings combinations']
+                     'C04 (case conversion), C07 (escaping), C11 (escape text).  END TO END under combinations of settings (Q01s): for 2 test cases '
+                     'of 2/1 characters from 0-9 a-z (A-Z), blank, underscore and each of %s combinations of the 13 settings (class conversions, repetitions, '
+                     'case-insensitive matching, capturing groups, escaping, verbose mode, anchors), build() from MIR does not panic, prints the requested flag group '
+                     'and anchors and only groups of the requested kind, the text is in the syntax subset read by the pattern parser, and every test case is '
+                     'found in full (leftmost-first search; with (?i) up to simple case folding).' % ('25' if rep.tier == 'quick' else '260'))
+    rep.outside = ['the regex crate\'s own parser (replays use it; the deciding step reads the syntax subset grex prints)',
+                   'code points outside the stated domains; more or longer test cases than the bound', 'surrogate escaping and syntax highlighting (excluded by the property)']
     rep.assumptions += ['same models as C02']
     env = Env(rep)
     known, _ = load_known()
     quick = [((2, 1), False, False), ((2, 2), False, False), ((2,), False, True), ((3,), False, True), ((2, 1), False, True), ((1,), True, False)]
     thorough = quick + [((3, 2), False, False), ((4,), False, True), ((3, 2), False, True), ((2, 2, 1), False, False)]
     run_pipeline_obligations(rep, env, known, quick if rep.tier == 'quick' else thorough, 'sound')
+    # every combination of settings, end to end on the printed pattern
+    run_settings_obligations(rep, env, known, [(2, 1)] if rep.tier == 'quick' else [(2, 1), (1, 1)], setting_combinations(rep.tier))
+
+
+NATIVE_SETTING = {'capture': 'capture_groups'}
+
+
+def setting_combinations(tier):
+    """the combinations of settings Q01s is decided for: presentation / anchor / case / repetition flags crossed with sets of class conversions"""
+    import itertools
+    conv = [(), ('digits',), ('words', 'non_words'), ('digits', 'words', 'spaces', 'non_digits', 'non_words', 'non_spaces')]
+    if tier == 'quick':
+        base = [(), ('ignore_case',), ('verbose',), ('capture',), ('repetitions',), ('no_start_anchor',), ('no_end_anchor',), ('no_start_anchor', 'no_end_anchor'),
+                ('ignore_case', 'verbose', 'capture'), ('repetitions', 'verbose', 'no_end_anchor'), ('escape', 'ignore_case', 'repetitions')]
+        out = [b + c for b in base for c in conv[:2]] + [conv[2], conv[3], ('ignore_case', 'verbose') + conv[3]]
+    else:
+        flags = ['ignore_case', 'verbose', 'capture', 'repetitions', 'no_start_anchor', 'no_end_anchor']
+        out = [tuple(f for f, on in zip(flags, bits) if on) + c for bits in itertools.product((False, True), repeat=6) for c in conv]
+        out += [('escape',) + c for c in conv]
+    seen, res = set(), []
+    for o in out:
+        k = tuple(sorted(o))
+        if k not in seen:
+            seen.add(k)
+            res.append(k)
+    return res
+
+
+def replay_settings(env, cases, settings):
+    """build() with the settings on the real build: no panic, the pattern compiles, flags / anchors as requested, every test case found in full"""
+    nat = {NATIVE_SETTING.get(k, k): True for k in settings}
+    got = env.eval([{'op': 'build', 'cases': cases, 'settings': nat}])
+    pat = got[0].get('ok')
+    if pat is None:
+        return True, 'build(%s, %s) panics: %s' % ([''.join(map(chr, c)) for c in cases], ','.join(settings), str(got[0])[:160]), {}
+    txt = ''.join(map(chr, pat))
+    found = env.eval([{'op': 'regex_find', 'pattern': pat, 'text': c} for c in cases])
+    problems = []
+    if any('compile_error' in str(r) for r in found):
+        problems.append('does not compile')
+    else:
+        for c, r in zip(cases, found):
+            sp = r.get('ok')
+            if not (isinstance(sp, list) and sp[0] == 0 and sp[1] == sp[2]):
+                problems.append('searching %s finds %s' % (json.dumps(''.join(map(chr, c))), 'nothing' if sp is None else 'bytes %d..%d of %d' % tuple(sp)))
+    want_head = '(?ix)' if ('ignore_case' in settings and 'verbose' in settings) else '(?i)' if 'ignore_case' in settings else '(?x)' if 'verbose' in settings else ''
+    if not txt.startswith(want_head) or (not want_head and txt.startswith('(?') and not txt.startswith('(?:')):
+        problems.append('flag group is not %r' % want_head)
+    body = txt[len(want_head):].strip()
+    if body.startswith('^') != ('no_start_anchor' not in settings) or body.endswith('$') != ('no_end_anchor' not in settings):
+        problems.append('anchors not as requested')
+    what = 'build(%s, %s) = %s' % ([''.join(map(chr, c)) for c in cases], ','.join(settings) or 'default', json.dumps(txt)) + ('; ' + '; '.join(problems) if problems else '')
+    return bool(problems), what, {'pattern': pat}
+
+
+def run_settings_obligations(rep, env, known, lens_list, combos):
+    jobs = [(lens, st_) for lens in lens_list for st_ in combos]
+    env.prefetch([('q01s', (lens, st_), {}) for lens, st_ in jobs])
+    shown = 0
+    n_unsat = 0
+    for lens, st_ in jobs:
+        o = env.run('q01s', lens, st_)
+        if o.result == 'unsat':
+            n_unsat += 1
+            if shown < 8:
+                shown += 1
+                ob_add(rep, o)
+            continue
+        ob_add(rep, o)
+        if o.result != 'sat':
+            continue
+        for m in o.verdict.models:
+            cases = [[m['s%d_%d' % (i, j)] for j in range(n)] for i, n in enumerate(lens)]
+            bad, what, obs = replay_settings(env, cases, st_)
+            key = 'cases=%s,%s' % (canonical_words(cases), ','.join(st_) or 'default')
+            classify(rep, known, 'Q01s', key, what, {'inputs': {'settings_cases': cases, 'settings_list': list(st_)}, 'observed': obs}, bad)
+    rep.obligations.append({'id': 'Q01s[summary]', 'title': Q.q01s.__doc__, 'engine': 'mirsym', 'result': 'unsat' if n_unsat == len(jobs) else 'mixed',
+                            'input_domain': '%d (shape, settings) pairs: shapes %s x %d combinations of settings; %d unsat' % (len(jobs), lens_list, len(combos), n_unsat),
+                            'paths': 0, 'queries': 0})
 
 
 def replay_c02(env, rec):
     i = rec['inputs']
+    if 'settings_cases' in i:
+        bad, what, _ = replay_settings(env, i['settings_cases'], tuple(i['settings_list']))
+        return bad, what
     bad, what, _ = replay_pipeline(env, i['pipeline'], i['settings'], i.get('clause', 'exact'))
     return bad, what
 
